@@ -221,7 +221,7 @@ func TestC14(t *testing.T) {
 	}
 	close(jobs)
 	wg.Wait()
-	r.Require("histories_db", "histories_http", "histories_linearizable", "overlapping_histories", "list_overlapping_two_puts", "same_value_puts_overlapping", "histories_over_loopback_sockets", "histories_with_failing_file_system", "calls_failed_by_io_error_under_concurrency", "calls_whose_reply_was_lost")
+	r.Require("histories_db", "histories_http", "histories_linearizable", "overlapping_histories", "list_overlapping_two_puts", "same_value_puts_overlapping", "histories_over_loopback_sockets", "histories_with_failing_file_system", "calls_failed_by_io_error_under_concurrency", "calls_whose_reply_was_lost", "histories_with_a_restart")
 	r.Rule("three history shapes: 'global-with-list' (4 clients x 5 ops: list/put/activate/get/delete on the first and last of 32 names, checked unpartitioned), 'per-key' (7 clients x 7 ops of all kinds on 3 names, partitioned by name), 'same-value-burst' (8 spin-synchronised clients putting the same value); audit sink injects yields/microsecond sleeps; DB API and HTTP handlers. Every history + a final sequential state read is decided by porcupine. Distinct = (shape, level, hash of the observed overlap pattern)")
 }
 
@@ -260,7 +260,9 @@ func oneHistory(t *testing.T, r *evid.Run, dir string, idx int, sh shape, level 
 			}
 		}
 	}
-	var do doer = func(op ops.Op) ops.Result { return ops.ApplyReal(d, su, op) }
+	var dcur atomic.Pointer[db.DB]
+	dcur.Store(d)
+	var do doer = func(op ops.Op) ops.Result { return ops.ApplyReal(dcur.Load(), su, op) }
 	if level == "http" {
 		srv, err := httpdrv.New(d)
 		if err != nil {
@@ -358,6 +360,18 @@ func oneHistory(t *testing.T, r *evid.Run, dir string, idx int, sh shape, level 
 	} else {
 		close(faultDone)
 	}
+	// In some DB-level histories the server is restarted in the middle: all clients pause, the database file is
+	// opened afresh, the clients go on. The specification is about the service, not about one process.
+	restartAt := -1
+	if level == "db" && !sh.faulty && idx%3 == 0 {
+		restartAt = 1 + rng.IntN(sh.perCli-1)
+		r.Count("histories_with_a_restart", 1)
+	}
+	var pause sync.WaitGroup
+	resume := make(chan struct{})
+	if restartAt >= 0 {
+		pause.Add(sh.clients)
+	}
 	for c := 0; c < sh.clients; c++ {
 		wg.Add(1)
 		go func(c int) {
@@ -365,13 +379,30 @@ func oneHistory(t *testing.T, r *evid.Run, dir string, idx int, sh shape, level 
 			ready.Done()
 			for !gate.Load() { // spin barrier: everybody starts within nanoseconds
 			}
-			for _, op := range plans[c] {
+			for k, op := range plans[c] {
+				if k == restartAt {
+					pause.Done()
+					<-resume
+				}
 				h.record(c, op, do)
 			}
 		}(c)
 	}
 	ready.Wait()
 	gate.Store(true)
+	if restartAt >= 0 {
+		pause.Wait()
+		d2, err := db.Open(dbPath, realdb.DummyKey("c14"), audit.New(snk))
+		if err != nil {
+			r.Violation("restart-fails", idx, fmt.Sprintf("history %d: reopening the database in the middle of the history: %v", idx, err), nil)
+			close(resume)
+			wg.Wait()
+			return
+		}
+		dcur.Store(d2)
+		d = d2
+		close(resume)
+	}
 	wg.Wait()
 	<-faultDone
 	r.Count("calls_whose_reply_was_lost", h.lost)
